@@ -79,7 +79,15 @@ type Specs struct {
 	Sentinels []string          // full names of package-level error vars treated as distinct constants
 	NoEffect  []string          // patterns of functions whose calls have no effect (results havocked)
 	Lemmas    []*Lemma          // pure SMT lemmas over the vocabulary
+	Callers   []*CallersRule
 	Imports   map[string]string // alias -> path (global across spec files)
+}
+
+type CallersRule struct {
+	Tags    []string
+	Callee  string
+	Allowed []string
+	Where   string
 }
 
 type SpecConst struct {
@@ -213,7 +221,10 @@ func (sp *Specs) parseLines(lines []rawLine, pkgPath string) error {
 		h := b.head.text
 		kw := h
 		rest := ""
-		if i := strings.IndexAny(h, " \t"); i >= 0 {
+		if i := strings.IndexAny(h, " \t["); i >= 0 && h[i] == '[' {
+			kw = h[:i]
+			rest = strings.TrimSpace(h[i:])
+		} else if i := strings.IndexAny(h, " \t"); i >= 0 {
 			kw = h[:i]
 			rest = strings.TrimSpace(h[i:])
 		}
@@ -276,6 +287,24 @@ func (sp *Specs) parseLines(lines []rawLine, pkgPath string) error {
 				}
 				sp.Lemmas = append(sp.Lemmas, &Lemma{m[2], tags, e, src, b.head.file, b.head.line})
 			}
+		case "callers":
+			// callers[tags] <callee> only <fn>, <fn> ...
+			m := regexp.MustCompile(`^callers(?:\[([^\]]*)\])?\s+(.*?)\s+only\s+(.*)$`).FindStringSubmatch(h)
+			if m == nil {
+				return fmt.Errorf("%s: callers[tags] <callee> only <fn>, ...", where)
+			}
+			r := &CallersRule{Callee: sp.qualify(m[2], pkgPath), Where: where}
+			for _, t := range strings.Split(m[1], ",") {
+				if t = strings.TrimSpace(t); t != "" {
+					r.Tags = append(r.Tags, t)
+				}
+			}
+			for _, a := range splitTop(m[3], ',') {
+				if a != "" && a != "nobody" {
+					r.Allowed = append(r.Allowed, sp.qualify(a, pkgPath))
+				}
+			}
+			sp.Callers = append(sp.Callers, r)
 		case "spec":
 			if err := sp.parseSpecFunc(rest, where); err != nil {
 				return err
